@@ -121,11 +121,18 @@ def call(name, args):
     return r['result'] if r['error'] is None else ('ERR', r['error'])
 
 
-def close(got, want, tol=Fraction(1, 10 ** 9)):
+def close(got, want, tol=Fraction(1, 10 ** 9), slack=0):
     if isinstance(got, bool) or not isinstance(got, (int, float)):
         return False
     g = Fraction(got)
-    return g == want or abs(g - want) <= tol * max(1, abs(want))
+    return g == want or abs(g - want) <= tol * max(1, abs(want)) + slack
+
+
+def offset_list(rng, n):
+    """decimals with a large common offset and a small spread (a one-pass sum-of-squares formula cancels on these; the
+    two-pass / exact definitions do not)"""
+    off = rng.choice([10 ** 6, 2 * 10 ** 7, 10 ** 8 - 1, -3 * 10 ** 7, 123456789])
+    return [off + rng.randint(1, 99) / rng.choice([10.0, 100.0, 16.0]) for _ in range(n)]
 
 
 def reference(items):
@@ -161,16 +168,19 @@ def check_list(c):
     out = []
     ref = reference(items)
     pargs = [perm[i] for i in range(len(perm))]
+    big = max([abs(Fraction(x)) for x in items] + [0])
     for name, want in ref.items():
+        # AVEDEV subtracts a rounded mean from every item: its absolute error grows with the magnitude of the items
+        sl = big * Fraction(1, 2 ** 45) if name == 'AVEDEV' and big > 10 ** 5 else 0
         got = call(name, g1)
-        if not close(got, want):
+        if not close(got, want, slack=sl):
             out.append(('%s over %r' % (name, g1), None, float(want), got))
             continue
         got2 = call(name, g2)
-        if not close(got2, want):
+        if not close(got2, want, slack=sl):
             out.append(('%s: regrouping %r as %r changes the result' % (name, g1, g2), None, got, got2))
         got3 = call(name, pargs)
-        if not close(got3, want):
+        if not close(got3, want, slack=sl):
             out.append(('%s: reordering the items changes the result' % name, None, got, got3))
     xs = [Fraction(x) for x in items]
     n = len(xs)
@@ -366,6 +376,8 @@ def explore(ctx):
         items = [rnum(rng, kind) for _ in range(n)]
         if rng.random() < 0.25:
             items = [round(rng.uniform(-50, 50), 2) for _ in range(n)]        # decimal fractions (tolerance)
+        elif rng.random() < 0.12:
+            items = offset_list(rng, rng.randint(2, 8))
         perm = items[:]
         rng.shuffle(perm)
         work.append(('list', (items, group(rng, items), group(rng, items), perm)))
@@ -400,7 +412,7 @@ def search(ctx, proof, res):
     work = []
     for _ in range(15000):
         n = rng.randint(1, 10)
-        items = [rnum(rng, rng.choice([0, 1, 3])) for _ in range(n)]
+        items = [rnum(rng, rng.choice([0, 1, 3])) for _ in range(n)] if rng.random() < 0.8 else offset_list(rng, rng.randint(2, 8))
         perm = items[:]
         rng.shuffle(perm)
         work.append(('list', (items, group(rng, items), group(rng, items), perm)))
